@@ -290,6 +290,6 @@ _close()
 COMMON_TRUSTED = [
     'Verus 0.2026.09.13 + Z3 (soundness of the verifier)',
     'rustc -Zunpretty=expanded prints the code that is compiled (macro expansion by the compiler itself)',
-    'extraction rules R1-R13 of DESIGN.md section 3 (attributes/comments dropped, module tree flattened, panics -> explicit_panic stub, UFCS operator calls -> infix, Option::map(closure) -> match)',
+    'extraction rules of DESIGN.md section 3 (attributes/comments dropped, module tree flattened, panics -> explicit_panic stub, UFCS operator calls -> infix, closure combinators -> match (R13), loop normalisation (R15), constant folding (R16), inlining of contract-less straight-line helpers (R18), parameter renaming in contracts (R19); each application is counted in coverage.extraction_rule_applications)',
     'machine arithmetic is NOT treated as mathematical: Verus checks every + - * / % << >> for overflow / division by zero on the machine types',
 ]
